@@ -793,6 +793,121 @@ Proof.
   - rewrite Rmult_0_r. unfold Rdiv. rewrite Rinv_0. lra.
   - field. split; lra.
 Qed.
+(** the cut-off limit cut*max|x| and every switched-peak magnitude scale by k together, so the guard [no_cut] is itself
+    invariant under positive scaling: the second guard of C13_ncyc_joint_scale follows from the first *)
+Lemma nmax_scale a b : nmax (k * a) (k * b) = k * nmax a b.
+Proof.
+  unfold nmax. numR. rewrite (Rltb_ext (k * a) (k * b) a b) by (split; intros; nra). destruct (Rltb a b); reflexivity.
+Qed.
+Lemma fold_nmax_scale (r : list R) x : fold_left nmax (map (Rmult k) r) (k * x) = k * fold_left nmax r x.
+Proof. revert x; induction r as [|a r IH]; intros x; [reflexivity|]. cbn [map fold_left]. now rewrite nmax_scale, IH. Qed.
+Lemma amax_scale (l : list R) : amax (map (Rmult k) l) = k * amax l.
+Proof. destruct l as [|x r]; cbn [map amax]; [numR; lra|apply fold_nmax_scale]. Qed.
+Lemma vabs_scale_pos (l : list R) : vabs (map (Rmult k) l) = map (Rmult k) (vabs l).
+Proof. unfold vabs. rewrite !map_map. apply map_ext. intros x. numR. rewrite Rabs_mult, (Rabs_pos_eq k) by lra. reflexivity. Qed.
+Lemma no_cut_scale cut (xs : list R) : no_cut cut xs <-> no_cut cut (map (Rmult k) xs).
+Proof.
+  unfold no_cut. rewrite switched_peaks_scale, vabs_scale_pos, amax_scale.
+  split; intros H p Hp Hlt; apply (H p Hp).
+  - rewrite (xat_map (Rmult k)) in Hlt by (apply sp_within in Hp; lia). rewrite Rabs_mult, (Rabs_pos_eq k) in Hlt by lra.
+    apply Rmult_lt_reg_l with k; [exact Hk|]. lra.
+  - rewrite (xat_map (Rmult k)) by (apply sp_within in Hp; lia). rewrite Rabs_mult, (Rabs_pos_eq k) by lra.
+    replace (cut * (k * amax (vabs xs))) with (k * (cut * amax (vabs xs))) by ring. now apply Rmult_lt_compat_l.
+Qed.
+Lemma C13_ncyc_joint_scale_1 a_ref b cut (xs : list R) : no_cut cut xs ->
+  n_cyc_R (k * a_ref) b cut (map (Rmult k) xs) = n_cyc_R a_ref b cut xs.
+Proof. intros H1. apply C13_ncyc_joint_scale; [exact H1|exact (proj1 (no_cut_scale cut xs) H1)]. Qed.
 End Scale.
 Lemma C13_ncyc_joint_scale_0 k a_ref b (xs : list R) : 0 < k -> n_cyc_R (k * a_ref) b 0 (map (Rmult k) xs) = n_cyc_R a_ref b 0 xs.
 Proof. intros Hk. apply C13_ncyc_joint_scale; [exact Hk|apply no_cut_0|apply no_cut_0]. Qed.
+
+(** ** the interp1d(kind='previous') pipeline of the code equals the running sum of the model *)
+Lemma np_insert_0 {A} (l : list A) v : np_insert l 0 v = v :: l.
+Proof. reflexivity. Qed.
+Lemma np_insert_end {A} (l : list A) v : np_insert l (length l) v = l ++ [v].
+Proof. unfold np_insert. now rewrite firstn_all, skipn_all. Qed.
+Lemma np_insert_before_last {A} (l : list A) d : l <> [] -> np_insert l (length l - 1) (last l d) = l ++ [last l d].
+Proof.
+  intros Hne. destruct (exists_last Hne) as (r & x & ->).
+  rewrite app_length, last_last. cbn [length]. replace (length r + 1 - 1)%nat with (length r + 0)%nat by lia.
+  unfold np_insert. rewrite firstn_app_2, skipn_app, skipn_all2 by lia. cbn [firstn]. rewrite app_nil_r.
+  replace (length r + 0 - length r)%nat with 0%nat by lia. cbn [skipn app]. rewrite <- app_assoc. reflexivity.
+Qed.
+Lemma knots_le_app_last idx N q : (q < N)%nat -> knots_le (idx ++ [N]) q = knots_le idx q.
+Proof.
+  intros Hq. induction idx as [|p r IH]; cbn [app knots_le].
+  - destruct (Nat.leb_spec N q); [lia|reflexivity].
+  - destruct (Nat.leb p q); [now rewrite IH|reflexivity].
+Qed.
+Lemma knots_le_le xk q : (knots_le xk q <= length xk)%nat.
+Proof. induction xk as [|x r IH]; cbn [knots_le length]; [lia|]. destruct (Nat.leb x q); lia. Qed.
+Lemma knots_le_gt idx q : (forall p, In p idx -> (q < p)%nat) -> knots_le idx q = 0%nat.
+Proof.
+  destruct idx as [|p r]; intros H; cbn [knots_le]; [reflexivity|].
+  destruct (Nat.leb_spec p q); [specialize (H p (or_introl eq_refl)); lia|reflexivity].
+Qed.
+(** [knots_le] on a strictly ascending list is the number of knots <= q (searchsorted) *)
+Lemma knots_le_count idx q : ascending idx -> knots_le idx q = length (filter (fun p => Nat.leb p q) idx).
+Proof.
+  induction 1 as [|p r Hlt Ha IH]; cbn [knots_le filter]; [reflexivity|].
+  destruct (Nat.leb_spec p q); cbn [length]; [now rewrite IH|].
+  symmetry. replace (filter (fun p0 => Nat.leb p0 q) r) with (@nil nat); [reflexivity|].
+  symmetry. clear IH Ha. induction r as [|x r IHr]; [reflexivity|]. cbn [filter].
+  destruct (Nat.leb_spec x q); [specialize (Hlt x (or_introl eq_refl)); lia|]. apply IHr. intros j Hj. apply Hlt. now right.
+Qed.
+Lemma cumsum_from_cons0 acc (l : list R) : cumsum_from acc (0 :: l) = acc :: cumsum_from acc l.
+Proof. cbn [cumsum_from]. numR. now rewrite Rplus_0_r. Qed.
+(** position i .. i+n-1 of the running sum: the partial sum over the knots <= q *)
+Lemma step_cumsum_from n : forall i idx (vals : list R) acc, ascending idx -> (forall p, In p idx -> (i <= p)%nat) ->
+  length idx = length vals ->
+  map (fun q => nth (knots_le idx q) (acc :: cumsum_from acc vals) 0) (seq i n) = cumsum_from acc (scatter i n idx vals).
+Proof.
+  induction n as [|n IH]; intros i idx vals acc Ha Hw Hl; [reflexivity|].
+  cbn [seq map scatter]. destruct idx as [|p ir].
+  - destruct vals; [|discriminate]. cbn [knots_le nth cumsum_from]. change (@n0 R NumR) with 0. numR. rewrite Rplus_0_r. f_equal.
+    rewrite <- (IH (S i) [] [] acc); auto. intros ? [].
+  - destruct vals as [|v vr]; [discriminate|]. inversion Ha as [|? ? Hlt Har]; subst.
+    destruct (Nat.eqb_spec p i) as [->|E].
+    + cbn [cumsum_from]. f_equal.
+      * cbn [knots_le]. rewrite Nat.leb_refl. rewrite knots_le_gt by assumption. reflexivity.
+      * assert (Hw' : forall r, In r ir -> (S i <= r)%nat) by (intros r Hr; specialize (Hlt r Hr); lia).
+        assert (Hl' : length ir = length vr) by (cbn [length] in Hl; lia).
+        rewrite <- (IH (S i) ir vr (nadd acc v) Har Hw' Hl').
+        apply map_ext_in. intros q Hq. apply in_seq in Hq. cbn [knots_le].
+        replace (Nat.leb i q) with true by (symmetry; apply Nat.leb_le; lia). reflexivity.
+    + change (@n0 R NumR) with 0. rewrite cumsum_from_cons0. f_equal.
+      * cbn [knots_le]. pose proof (Hw p (or_introl eq_refl)).
+        replace (Nat.leb p i) with false by (symmetry; apply Nat.leb_gt; lia). reflexivity.
+      * apply IH; auto. intros r Hr. pose proof (Hw p (or_introl eq_refl)). destruct Hr as [<-|Hr]; [lia|]. specialize (Hlt r Hr). lia.
+Qed.
+(** interp1d(kind='previous') over knots [0, p_0 .. p_k-1, n] with values [0, c_0 .. c_k-1, c_k-1], sampled at 0 .. n-1, is the
+    running sum of the values scattered at the (strictly ascending) positions p *)
+Lemma interp_previous_cumsum n idx (vals : list R) : ascending idx -> (forall p, In p idx -> (p < n)%nat) ->
+  length idx = length vals ->
+  let c := cumsum vals in
+  map (interp_previous (0%nat :: idx ++ [n]) (0 :: c ++ [last (0 :: c) 0])) (seq 0 n) = cumsum (scatter 0 n idx vals).
+Proof.
+  intros Ha Hw Hl c. unfold cumsum at 1. change (@n0 R NumR) with 0. rewrite <- (step_cumsum_from n 0 idx vals 0 Ha) by (auto; intros; lia).
+  apply map_ext_in. intros q Hq. apply in_seq in Hq. unfold interp_previous.
+  cbn [knots_le Nat.leb]. rewrite knots_le_app_last by lia.
+  pose proof (knots_le_le idx q) as Hm. set (m := knots_le idx q) in *.
+  replace (S m - 1)%nat with m by lia. cbn [length]. rewrite app_length. cbn [length].
+  rewrite Nat.min_l by lia.
+  change (0 :: c ++ [last (0 :: c) 0]) with ((0 :: c) ++ [last (0 :: c) 0]).
+  rewrite app_nth1 by (cbn [length]; unfold c; rewrite cumsum_length; lia). reflexivity.
+Qed.
+Lemma n_cyc_core_interp_eq (kn : R -> R) cut tiny (xs : list R) :
+  n_cyc_core_interp kn cut tiny xs = n_cyc_core kn cut tiny xs.
+Proof.
+  unfold n_cyc_core_interp, n_cyc_core. cbv zeta. change (@n0 R NumR) with 0.
+  set (ps := switched_peaks 0 xs). set (perc := map _ (peak_amps cut tiny xs)).
+  assert (Lp : length ps = length perc) by (unfold perc, peak_amps; now rewrite !map_length).
+  rewrite !np_insert_0. rewrite np_insert_before_last by discriminate.
+  replace (length ((0%R :: cumsum perc) ++ [last (0%R :: cumsum perc) 0%R]) - 1)%nat with (length (0%nat :: ps)).
+  2:{ rewrite app_length. cbn [length]. rewrite cumsum_length. lia. }
+  rewrite np_insert_end.
+  apply (interp_previous_cumsum (length xs) ps perc); [apply C12_sp_ascending| |exact Lp].
+  intros p Hp. apply sp_within in Hp. lia.
+Qed.
+Lemma C13_ncyc_interp_eq a_ref b cut (xs : list R) : n_cyc_interp_R a_ref b cut xs = n_cyc_R a_ref b cut xs.
+Proof. unfold n_cyc_interp_R, n_cyc_R, n_cyc_pl_interp, n_cyc_pl. apply n_cyc_core_interp_eq. Qed.
